@@ -349,15 +349,19 @@ Definition put_string (s : rb) (line col : Z) (t : list Z) : res (rb * Z) :=
       Ok (s', w)
   end.
 
-(* put_char *)
-Definition put_char (s : rb) (line col cp : Z) : res rb :=
+(* put_char (repaired code, fixes/C04-char-width.patch): a character that is not exactly one
+   column wide goes the way of a one-character text; returns the columns it occupies, or -1 *)
+Definition put_char (s : rb) (line col cp : Z) : res (rb * Z) :=
+  if negb (text_valid [cp]) then Ok (s, -1) else
+  if negb (cpw cp =? 1) then put_string s line col [cp] else
   match xlate_and_clip (aux s) line col 1 with
-  | None => Ok s
+  | None => Ok (s, 1)
   | Some (l, c, n, _) =>
-      on_row s l (fun r =>
+      do s' <- on_row s l (fun r =>
         do cell <- getr r c;
         if -1 <? cmask cell then Ok r
-        else make_span r c n (CChar (cur_pen (aux s)) cp))
+        else make_span r c n (CChar (cur_pen (aux s)) cp));
+      Ok (s', 1)
   end.
 
 (* skip *)
@@ -572,10 +576,11 @@ Definition step (s : rb) (o : rbop) : res (rb * list Z) :=
       Ok (set_vc_col s' c, [])
   | OEraseRect r => do s' <- eraserect s r; Ok (s', [])
   | OClear => do s' <- clear s; Ok (s', [])
-  | OCharAt l c cp => do s' <- put_char s l c cp; Ok (s', [])
+  | OCharAt l c cp => do2 (s', _) <- put_char s l c cp; Ok (s', [])
   | OChar cp =>
       if negb (vc_set a) then Ok (s, []) else
-      do s' <- put_char s (vc_line a) (vc_col a) cp; Ok (set_vc_col s' (vc_col a + 1), [])
+      do2 (s', v) <- put_char s (vc_line a) (vc_col a) cp;
+      Ok ((if v >? 0 then set_vc_col s' (vc_col a + v) else s'), [])
   | OHLine l c1 c2 st caps => do s' <- hline_at s l c1 c2 st caps; Ok (s', [])
   | OVLine l1 l2 c st caps => do s' <- vline_at s l1 l2 c st caps; Ok (s', [])
   end.
